@@ -946,8 +946,8 @@ def direct_exec(ctx, L):
     fd4 = [(_Node(0), False, False), (_Node(1), False, False), (_Node(2), True, False), (_Node(3), False, True)]
     alpha5 = [('push', 0), ('push', 1), ('push', 2), ('push', 3), ('pop',)]
     alpha3 = [('push', 0), ('push', 3), ('pop',)]
-    for sm, k, alpha in (((2, 3, 2, 1), ctx.n(4, 6), alpha5), ((3, 2, 1, 2), ctx.n(4, 5), alpha5),
-                         ((2, 4, 1, 1), ctx.n(6, 8), alpha3)):
+    for sm, k, alpha in (((2, 3, 2, 1), ctx.n(4, 5), alpha5), ((3, 2, 1, 2), ctx.n(4, 5), alpha5),
+                         ((2, 4, 1, 1), ctx.n(6, 7), alpha3)):
         Ls = _small_L(L, *sm)
         with _patched_limits(Ls):
             for seq in itertools.product(alpha, repeat=k):
@@ -993,6 +993,8 @@ def direct_exec(ctx, L):
     for kk in keys:
         ctx.count('direct-exec', kk[:2] + (hash(kk[2]),))
     ctx.stat('direct_exec', stats)
+    ctx.sample(dict(stream='direct-exec', limits=[2, 3, 2, 1], ops=['push f0', 'push f0', 'push f0', 'pop'],
+                    real_decisions='accepted, refused (per-function recursion 2 > 1), refused (level 3 > 2), -'))
     fn = "(fun c => let '(L, tr) := c in xcheck_full L edet_reset tr)"
 
     def on_fail(fails):
@@ -1310,6 +1312,8 @@ def direct_memo(ctx):
         cases.append(g_list(log, str, 'mev * mout'))
         metas.append(dict(variant=var, plan=roots))
     ctx.stat('direct_memo', stats)
+    if metas:
+        ctx.sample(dict(stream='direct-memo', variant=metas[0]['variant'], events=cases[0][:300]))
     def on_fail(fails):
         for i in fails[:3]:
             ctx.violation('obligation', dict(what='correspondence _memoize_default: hit/enter decisions or returned values differ from the model',
@@ -1757,8 +1761,8 @@ def classify_crash(ctx, stream, task_desc, r, extra=None):
 
 
 def stream_queries(ctx, L):
-    nprog = ctx.n(24, 300)
-    per_prog = ctx.n(12, 40)
+    nprog = ctx.n(24, 200)
+    per_prog = ctx.n(12, 30)
     tasks, progs = [], []
     for pi in range(nprog):
         n = ctx.rng.choice([3, 5, 8, 12, 16, 24, 32, 40])
